@@ -59,6 +59,17 @@ def run(ctx):
         for c in n.calls():
             if call_name(c) in ("append", "sort") and isinstance(c.func.value, ast.Subscript) and self_attr(c.func.value.value) in CACHES:
                 writes.append((n, self_attr(c.func.value.value), norm(c.func.value.slice), None))
+    # a cache entry that holds a local list (`ids = []; self.topic_partitions[topic] = ids`): what is done to the local
+    # is done to the entry
+    held = {}
+    for n, a, k, v in list(writes):
+        if isinstance(v, ast.Name):
+            held[v.id] = (a, k)
+    for i in sorted(body):
+        n = cf.nodes[i]
+        for c in n.calls():
+            if call_name(c) in ("append", "sort") and isinstance(c.func.value, ast.Name) and c.func.value.id in held:
+                writes.append((n, held[c.func.value.id][0], held[c.func.value.id][1], None))
     need(len(writes) >= 5, "cache writes in the merge loop not found")
     bad = [(a, k) for n, a, k, v in writes if k != tv and k not in tp_names]
     r.check(not bad, "%s#indexed-by-reply-topic" % mt.qname, "cache entries written under keys not derived from the reply's topic: %s" % bad,
@@ -68,22 +79,37 @@ def run(ctx):
             "the topic's old entries are not dropped before the reply's are stored", where(mt, lp[0].stmt),
             "partitions that disappeared stay routable; old leader survives")
     lead = [(n, v) for n, a, k, v in writes if a == "topics_to_brokers" and v is not None]
-    okl = len(lead) == 2
-    import re as _re
-    total = True
+    # every value stored as a partition's leader, traced to where it is computed (both arms of an if may feed one
+    # store through a local): None exactly where the facts say "no usable leader" (id -1, or not in the reply's broker
+    # list), the reply's own broker entry where they say the opposite
+    B_ = mt.params[1]
+    cases = []
     for n, v in lead:
-        # "no usable leader": the id is -1, or (also) it is not in the reply's own broker list
-        neg = any(pol and _re.match(r"^(\S+\.leader == -1|\S+\.leader not in %s|\S+\.leader == -1 or \S+\.leader not in %s)$" % (mt.params[1], mt.params[1]), t)
-                  for t, pol in facts[n.id])
-        pos = any(t.endswith(".leader == -1") and not pol for t, pol in facts[n.id])
-        if isinstance(v, ast.Constant) and v.value is None:
-            okl = okl and neg
-        else:
-            okl = okl and pos and ((isinstance(v, ast.Subscript) and norm(v.value) == mt.params[1] and norm(v.slice).endswith(".leader")) or (
-                isinstance(v, ast.Call) and call_name(v) == "get" and call_recv(v) == mt.params[1] and v.args and norm(v.args[0]).endswith(".leader")))
-            if isinstance(v, ast.Subscript):
-                key_ = norm(v.slice)
-                total = total and (("%s in %s" % (key_, mt.params[1]), True) in facts[n.id] or ("%s not in %s" % (key_, mt.params[1]), False) in facts[n.id])
+        ogs = value_origins(cf, n.id, v, params=mt.params) if isinstance(v, ast.Name) else [(n.id, v)]
+        for dn, e in (ogs or [(n.id, v)]):
+            cases.append((dn, e))
+    okl = len(cases) >= 2
+    total = True
+    n_none = n_entry = 0
+    for dn, e in cases:
+        e = at(ctx, mt, dn, e)
+        if isinstance(e, ast.Constant) and e.value is None:
+            n_none += 1
+            ms = sorted({t.split(".leader")[0].split()[-1].lstrip("(") for t, pol in resolved_facts(facts[dn]) if ".leader" in t})
+            okl = okl and any(facts_imply(prog, mt, facts[dn], {"a": "%s.leader == -1" % m_, "b": "%s.leader in %s" % (m_, B_)},
+                                          lambda env: env["a"] or not env["b"]) for m_ in ms)
+            continue
+        key_e = e.slice if isinstance(e, ast.Subscript) and norm(e.value) == B_ else (
+            e.args[0] if isinstance(e, ast.Call) and call_name(e) == "get" and call_recv(e) == B_ and e.args else None)
+        if key_e is None or not norm(key_e).endswith(".leader"):
+            okl = False
+            continue
+        n_entry += 1
+        m_ = norm(key_e)[:-len(".leader")]
+        okl = okl and facts_imply(prog, mt, facts[dn], {"a": "%s.leader == -1" % m_}, lambda env: not env["a"])
+        if isinstance(e, ast.Subscript):
+            total = total and facts_imply(prog, mt, facts[dn], {"b": "%s.leader in %s" % (m_, B_)}, lambda env: env["b"])
+    okl = okl and n_none >= 1 and n_entry >= 1
     r.check(total, "%s#leader-lookup-total" % mt.qname, "the leader id a partition names is looked up in the reply's broker list without a membership "
             "test (or .get)", where(mt, lp[0].stmt), "a reply that names a leader its own broker list does not contain (a broker that has just gone "
             "away): KeyError half-way through the merge - the topic is left half-filled and unsorted, every later topic of the reply is skipped")
@@ -178,8 +204,20 @@ def run(ctx):
         if okf and isinstance(flag, ast.Name):
             d = [x for x in walk_body_shallow(lm.body) if isinstance(x, ast.Assign) and unparse(x.targets[0]) == flag.id]
             va = lm.node.args.vararg.arg if lm.node.args.vararg else None
-            okf = len(d) == 1 and va is not None and norm(d[0].value) in (
-                "not %s" % va, "len(%s) == 0" % va, "0 == len(%s)" % va, "not len(%s)" % va, "%s == ()" % va, "len(%s) < 1" % va)
+            # the caller's topic arguments, or a local holding one item per argument (their coerced forms): equally empty
+            same_len = {va}
+            for x in walk_body_shallow(lm.body):
+                if isinstance(x, ast.Assign) and len(x.targets) == 1 and isinstance(x.targets[0], ast.Name):
+                    v_ = x.value
+                    if isinstance(v_, ast.Call) and call_name(v_) in ("tuple", "list") and len(v_.args) == 1:
+                        v_ = v_.args[0]
+                    if isinstance(v_, (ast.GeneratorExp, ast.ListComp)) and len(v_.generators) == 1 and not v_.generators[0].ifs and norm(
+                            v_.generators[0].iter) in same_len:
+                        if sum(1 for y in walk_body_shallow(lm.body) if isinstance(y, ast.Assign) and any(
+                                isinstance(t_, ast.Name) and t_.id == x.targets[0].id for t_ in y.targets)) == 1:
+                            same_len.add(x.targets[0].id)
+            okf = len(d) == 1 and va is not None and any(norm(d[0].value) in (
+                "not %s" % a_, "len(%s) == 0" % a_, "0 == len(%s)" % a_, "not len(%s)" % a_, "%s == ()" % a_, "len(%s) < 1" % a_) for a_ in same_len)
     r.check(okf, "%s#full-refresh-flag" % lm.qname, "the `all topics were fetched` flag is not computed from the caller's topic arguments "
             "(it reads a name re-bound inside the response handler)", where(lm, lm.node),
             "full refresh of a cluster with at least one topic: brokers missing from the reply are never closed")
@@ -302,9 +340,11 @@ def run(ctx):
     conn = ctx.func("brokerclient:_KafkaBrokerClient._connect")
     # the function that builds the endpoint: it has to be one of the closures run per attempt (not _connect's own body,
     # which runs once while retries happen later)
-    cns = [g for g in conn.nested.values() if calls_in(g, "_endpointFactory")]
-    cn = cns[0] if len(cns) == 1 and not calls_in(conn, "_endpointFactory") else None
-    ef = [c for c in (calls_in(cn, "_endpointFactory") if cn else [])]
+    def _factory_calls(g):  # calls of the endpoint factory, also through a local bound to it
+        return [c for c in calls_in(g) if norm(callee_expr(c)) == "self._endpointFactory"]
+    cns = [g for g in conn.nested.values() if _factory_calls(g)]
+    cn = cns[0] if len(cns) == 1 and not _factory_calls(conn) else None
+    ef = [c for c in (_factory_calls(cn) if cn else [])]
     r.check(cn is not None and len(ef) == 1 and [norm(a) for a in ef[0].args[1:3]] == ["self.host", "self.port"], "%s#address-at-connect-time" % conn.qname,
             "the endpoint address is captured before the connect attempt (stale after updateMetadata)", where(conn, conn.node),
             "broker restarted on a new address is never reached")
@@ -317,7 +357,8 @@ def run(ctx):
     guarded = bool(tests) and all(cm.dominates([tests[0].id], n.id) for n in ws) and not any(
         n.id in cm.reach([t for t, lab in cm.succ[tests[0].id] if lab and lab[0] == "cond" and lab[2]]) for n in ws)
     r.check(len(ws) == 2 and guarded and
-            {norm(node_assign_value(n, a)) for n in ws for a in ("host", "port") if node_assign_value(n, a) is not None} == {"%s.host" % p1, "%s.port" % p1},
+            {"%s<-%s" % (a, norm(at(ctx, um, n.id, node_assign_value(n, a)))) for n in ws for a in ("host", "port") if node_assign_value(n, a) is not None} == {
+                "host<-%s.host" % p1, "port<-%s.port" % p1},
             "%s#checked-update" % um.qname, "host/port are not taken from the new entry after checking its node id", where(um, um.node))
 
     # every broker entry a response names is applied to the address book and to the broker client that exists for that
